@@ -374,7 +374,12 @@ func vPersistRun(tr *vTrace, id string, salt int64, bytesN int) {
 	for _, ts := range []int{size, size, 1 + rnd.Intn(size), size + 1 + rnd.Intn(10)} {
 		emitLoad("none", blocks, stream, version, ts)
 	}
-	emitLoad("version", blocks, stream, version+1, size)
+	// any other version number must be refused - also the zero version, which is a version like any other
+	for _, ov := range []uint64{version + 1, 0, 1} {
+		if ov != version {
+			emitLoad("version", blocks, stream, ov, size)
+		}
+	}
 	// C12: block-level faults
 	cp := func() []vBlock { return append([]vBlock{}, blocks...) }
 	for n := 0; n < len(blocks); n++ {
